@@ -141,11 +141,11 @@ def stripTsig (msg : Bytes) : StripResult :=
             | some (some r, tsigoff) => .ok ⟨(setArcount msg (w 5 + 65535)).take tsigoff, true, r.name, r.ttl, r.body⟩
             | some (none, last) => .ok ⟨msg.take last, false, [], 0, none⟩   -- the zero TSIG of `new(TSIG)`
 
-/-- the variables `tsigBuffer` takes from the record (`wall`: the clock it reads when TimeSigned is 0) -/
-def tsigVarsOf (s : Stripped) (wall : Nat) : TsigVars :=
-  let ts := fieldN s.body 1
-  let fudge := fieldN s.body 2
-  ⟨s.name, s.ttl, fieldB s.body 0, if ts = 0 then wall else ts, if fudge = 0 then 300 else fudge,
+/-- the variables `tsigBuffer` takes from the record, as they stand in it (the defaults for a time or fudge of 0 are the
+    signer's business: `TsigGenerate` fills them in before it calls `tsigBuffer`; `wall`, the verifier's clock, is no
+    longer consulted here — the parameter is kept for the callers) -/
+def tsigVarsOf (s : Stripped) (_wall : Nat) : TsigVars :=
+  ⟨s.name, s.ttl, fieldB s.body 0, fieldN s.body 1, fieldN s.body 2,
     fieldN s.body 6, fieldN s.body 7, fieldB s.body 8⟩
 
 def stripDigest (s : Stripped) (requestMAC : Bytes) (timersOnly : Bool) (wall : Nat) : Bytes :=
